@@ -273,6 +273,9 @@ def check_pipe(c, repo):
             okp, _p = g2.must_pass(an, {gn, g2.exit}, {adds[0]}, skip_labels=('exc',))
             if okp:
                 an = adds[0]
+    if isinstance(an.ast, ast.Assign) and isinstance(an.ast.targets[0], ast.Name) and \
+            any(isinstance(k_.func, ast.Attribute) and k_.func.attr == 'append' and k_.args and is_name(k_.args[0], an.ast.targets[0].id) for k_ in calls_in(f2.node)):
+        raise AnalysisError('read_nonblocking: the decoded item is collected in a list that is joined later: that every item reaches the text once and in order is not decided for that form')
     okd = isinstance(an.ast, ast.AugAssign) and isinstance(an.ast.op, ast.Add) or \
         (isinstance(an.ast, ast.Assign) and isinstance(an.ast.value, ast.BinOp) and isinstance(an.ast.value.op, ast.Add)
          and is_name(an.ast.value.left, an.ast.targets[0].id))
